@@ -156,15 +156,15 @@ func asksEncryption(addr string) bool {
 // input is one configuration item for one position. Addr is a template: {P} a port the harness
 // picks, {F} a second one, {ABS} an absolute directory, {N} a per-case unique name.
 type input struct {
-	Pos   string `json:"pos"`
-	Class string `json:"class"`
-	Addr  string `json:"addr"`
-	Shape string `json:"shape,omitempty"` // structural near-miss (see buildItem); "" = address is a string
-	Name  string `json:"name,omitempty"`  // channel name (channel, listener)
-	Fwd   string `json:"fwd,omitempty"`   // listener forward address template
-	Raw   string `json:"raw,omitempty"`   // listener/channel: literal command-line string (template)
-	Want  string `json:"want"`            // accept | reject | any
-	Mutant bool  `json:"mutant,omitempty"`
+	Pos    string `json:"pos"`
+	Class  string `json:"class"`
+	Addr   string `json:"addr"`
+	Shape  string `json:"shape,omitempty"` // structural near-miss (see buildItem); "" = address is a string
+	Name   string `json:"name,omitempty"`  // channel name (channel, listener)
+	Fwd    string `json:"fwd,omitempty"`   // listener forward address template
+	Raw    string `json:"raw,omitempty"`   // listener/channel: literal command-line string (template)
+	Want   string `json:"want"`            // accept | reject | any
+	Mutant bool   `json:"mutant,omitempty"`
 }
 
 // classifyMutant gives a PRNG-made address the class (and expectation) a hand-written input of the
@@ -173,6 +173,12 @@ func classifyMutant(pos, a string) (class, want string) {
 	t := strings.TrimSpace(a)
 	nat := naturalRef(pos, t)
 	i := strings.Index(t, "://")
+	if strings.Contains(t, "<<") {
+		if nat == nil {
+			return "yaml-special", "reject"
+		}
+		return "yaml-special", "any"
+	}
 	switch {
 	case nat == nil:
 		if asksEncryption(t) {
@@ -208,7 +214,7 @@ func (in input) key() string {
 func (in input) panicClass() string {
 	if in.Pos == posServer || in.Pos == posChannel {
 		switch in.Class {
-		case "missing-address", "non-string-address", "non-map-item", "empty":
+		case "missing-address", "non-string-address", "non-map-item", "empty", "yaml-special":
 			return in.Class
 		}
 	}
@@ -377,6 +383,12 @@ func deterministicInputs() []input {
 		// extra URL components around a good address: same meaning or rejected
 		add(pos, "url-extras", "tcp://127.0.0.1:{P}/some/path?x=1#frag", "any")
 		add(pos, "url-extras", "tcp://user@127.0.0.1:{P}", "any")
+	}
+
+	// "<<" (the YAML merge key) inside an otherwise ordinary, quoted string
+	for _, pos := range []string{posServer, posChannel, posUpstream, posListener} {
+		add(pos, "yaml-special", "tcp://127.0.0.1:{P}/<<", "any")
+		add(pos, "yaml-special", "tcp<<tls://127.0.0.1:{P}", "reject")
 	}
 
 	// structural near-misses of the YAML/JSON item (server, channel)
